@@ -68,7 +68,7 @@ def emit_nodes(nodes, owner_name, elems_echo=True):
             out.append("{{ %s.%s }}" % (n[1], n[2]))
         elif k == "alias_default":
             out.append("{{ %s }}" % n[1])
-        elif k == "raw":
+        elif k in ("raw", "ph"):
             out.append(n[1])
         else:
             raise AssertionError(k)
@@ -104,7 +104,7 @@ def build_classes(prog, registry=None, module="sim.generated"):
 
     reg = registry or default_registry
     classes = {}
-    for i, cd in enumerate(prog["comps"]):
+    for i, cd in reversed(list(enumerate(prog["comps"]))):
         name = cd["name"]
         src = emit_nodes(cd["tmpl"], name if cd.get("echo_id") else None)
         attrs = {"__module__": module}
@@ -148,7 +148,11 @@ def build_classes(prog, registry=None, module="sim.generated"):
                 media_attrs["js"] = list(cd["media_js"])
             if cd.get("media_css"):
                 media_attrs["css"] = cd["media_css"] if isinstance(cd["media_css"], dict) else list(cd["media_css"])
+            if cd.get("media_extend") is False:
+                media_attrs["extend"] = False
             attrs["Media"] = type("Media", (), media_attrs)
+        elif cd.get("media_extend") is False:
+            attrs["Media"] = type("Media", (), {"extend": False})
         bases = (Component,)
         if cd.get("base") is not None and cd["base"] in classes:
             bases = (classes[cd["base"]],)
